@@ -180,7 +180,11 @@ def gen_root(rng, prop):
         d['v'] = gen_functor(rng)
     elif k == 'mixed':
         d['v'] = ['dict', [['f', gen_functor(rng)], ['d', gen_dna(rng)],
-                           ['h', ['oneof', [1, 2, 3]]], ['l', ['list', [gen_functor(rng)]]]]]
+                           ['h', ['oneof', [1, 2, 3]]], ['l', ['list', [gen_functor(rng)]]],
+                           # tuples are opaque leaves to pyglove but their content can be mutable
+                           ['t1', ['tuple', [['int', 1], ['list', [['int', 2], ['int', 3]]]]]],
+                           ['t2', ['tuple', [['tuple', [['dict', [['a', ['int', 1]]]]]], ['str', 'x']]]],
+                           ['t3', ['tuple', [['leaf', {'x': 1}], ['int', 0]]]]]]
     elif k == 'rec':
         d['v'] = gen_rec(rng, 0)
     elif k == 'cb':
@@ -1277,6 +1281,8 @@ class OracleBase:
                          step)
                 return False
             for node, parent, key, path in values.walk(root):
+                if path and path[0] == '<tuple>':
+                    continue      # inside a plain tuple: a leaf value, shared by shallow copies
                 if id(node) in seen and seen[id(node)][0] != ri:
                     self.bad('C01.shared-node', f'{op["k"]}|{out.status}|{flags}',
                              f'one node object appears in root {seen[id(node)][0]} at '
@@ -1364,7 +1370,7 @@ def shrink_candidates(case):
 LIST_PARTS = [('ops',)]
 
 
-QUICK_RUNS = {'C01': 30000, 'C02': 60000, 'C03': 16000, 'C07': 20000, 'C08': 20000, 'C09': 20000}
+QUICK_RUNS = {'C01': 30000, 'C02': 60000, 'C03': 16000, 'C07': 12000, 'C08': 20000, 'C09': 20000}
 _BUDGET_PROP = ['C01']
 
 
@@ -2040,6 +2046,39 @@ def _ancestors(n):
         p = p.sym_parent
 
 
+_IMMUTABLE = (int, float, str, bool, bytes, type(None), complex, frozenset, range, type)
+
+
+def _mutable_ids(v, acc=None, depth=0):
+    """ids of every mutable object reachable from v (through symbolic containers,
+    tuples and plain lists/dicts), with a short description."""
+    if acc is None:
+        acc = {}
+    if depth > 40 or isinstance(v, _IMMUTABLE) or v is MISSING or callable(v) and not isinstance(v, pg.Symbolic):
+        return acc
+    if isinstance(v, tuple):
+        for x in v:
+            _mutable_ids(x, acc, depth + 1)
+        return acc
+    if id(v) in acc:
+        return acc
+    if isinstance(v, pg.typing.ValueSpec) or isinstance(v, pg.typing.MissingValue):
+        return acc
+    acc[id(v)] = type(v).__name__
+    if isinstance(v, pg.Ref):
+        return acc
+    if isinstance(v, pg.Symbolic):
+        for x in v.sym_values():
+            _mutable_ids(x, acc, depth + 1)
+    elif isinstance(v, (list, set)):
+        for x in v:
+            _mutable_ids(x, acc, depth + 1)
+    elif isinstance(v, dict):
+        for x in v.values():
+            _mutable_ids(x, acc, depth + 1)
+    return acc
+
+
 def _pairs(a, b, path=()):
     """Corresponding nodes of two equal trees."""
     yield a, b, path
@@ -2113,6 +2152,15 @@ class C07Oracle(OracleBase):
                              f'{k}: the clone shares the {type(a).__name__} at {list(path)} '
                              f'with the original', step)
                     return
+            if deep:
+                mine, theirs = _mutable_ids(r), _mutable_ids(t)
+                shared = [(i, n) for i, n in mine.items() if i in theirs]
+                if shared:
+                    self.bad('C07.shared-mutable', f'{k}|{shared[0][1]}',
+                             f'{k}: the deep clone shares a mutable {shared[0][1]} object with the '
+                             f'original (reachable through tuples / plain containers included)',
+                             step)
+                    return
             errs = values.structure_errors(r)
             if errs:
                 self.bad('C07.malformed-clone', f'{k}|{errs[0][0]}',
@@ -2121,6 +2169,8 @@ class C07Oracle(OracleBase):
             ids_t = {id(n) for n, _, _, _ in values.walk(self.forest.roots[out.root_index])
                      if isinstance(n, pg.Symbolic)}
             for n, _, _, path in values.walk(r):
+                if path and path[0] == '<tuple>' and not deep:
+                    continue      # shallow copies share non-symbolic leaves (tuples included)
                 if isinstance(n, pg.Symbolic) and id(n) in ids_t:
                     self.bad('C07.shared-node', f'{k}|{type(n).__name__}',
                              f'{k}: clone node {list(path)} is an object of the original tree',
